@@ -509,6 +509,13 @@ func (node *NotNode) AcceptVisitor(v Visitor) {
 
 func (node *NotNode) collectFragments(fragments []string) []string {
 	fragments = append(fragments, "!")
+	if _, nested := node.Operand.(*NotNode); nested {
+		// "!!x" would be re-parsed as plain "x" (the parser folds runs of "!"), which changes the
+		// canonical text and hence the unique ID.  Keep the nesting explicit.
+		fragments = append(fragments, "(")
+		fragments = node.Operand.collectFragments(fragments)
+		return append(fragments, ")")
+	}
 	return node.Operand.collectFragments(fragments)
 }
 
